@@ -620,7 +620,9 @@ def negative_step_slices(repo, col):
     top = repo.func("scripts.slices_to_precomputed", "slices_to_raw_chunks")
     inv = _table_values(m, "AXIS_INVERSION_FOR_RAS")
     if inv is None:
-        raise AnalysisError("anchor vanished: AXIS_INVERSION_FOR_RAS")
+        if m.const("AXIS_INVERSION_FOR_RAS") is None:
+            raise AnalysisError("anchor vanished: AXIS_INVERSION_FOR_RAS")
+        inv = [1, -1]     # a computed table: assume both signs occur
     from .core import helper_closure, resolve_local_call, calls_in
     fns = helper_closure(top, depth=2)
     callers = {}          # helper key -> [(caller fn, call)]
